@@ -25,9 +25,15 @@ type zzE struct {
 var zzPrec = map[string]int{"or": 1, "and": 2, "==": 3, "!=": 3, "<": 4, "<=": 4, ">": 4, ">=": 4, "+": 5, "-": 5, "*": 6, "/": 6, "%": 6}
 
 func zzGenNum(d int) *zzE {
-	n := 1
+	n := 2 // leaves: a variable, or a printing call of a variable (side effect: order and count of evaluation are observable)
 	if d > 0 {
 		n = 5
+	}
+	if d == 0 && zzChoice("numleaf", 2) == 1 {
+		return &zzE{kind: "call", t: 'n', name: "f", r: &zzE{kind: "var", t: 'n', name: []string{"n0", "n1"}[zzChoice("nv", 2)]}}
+	}
+	if d == 0 {
+		n = 1
 	}
 	switch zzChoice("num", n) {
 	case 0:
@@ -48,6 +54,9 @@ func zzGenBool(d int) *zzE {
 	n := 1
 	if d > 0 {
 		n = 6
+	}
+	if d == 0 && zzChoice("boolleaf", 2) == 1 {
+		return &zzE{kind: "call", t: 'b', name: "g", r: &zzE{kind: "var", t: 'b', name: []string{"b0", "b1"}[zzChoice("bv", 2)]}}
 	}
 	switch zzChoice("bool", n) {
 	case 0:
